@@ -9,7 +9,7 @@
 Require Import Arith Lia List Bool ZArith QArith Qcanon.
 From TK Require Import Mat_Sums Mat_Core Mat_Qc Mat_EigSelect EigSelect Mat_EigSelect_Tie
                        Lap_Model Lap_Spec Lap_Exec Lap_Proof_Lap Lap_Proof_Embed Lap_Proof_Dm
-                       Lap_Proof_Total Lap_Proof_Complete Lap_Proof_Order Lap_Proof_DmOrder.
+                       Lap_Proof_Total Lap_Proof_Complete Lap_Proof_Order Lap_Proof_DmOrder Lap_Proof_Exec.
 Import ListNotations.
 Local Open Scope list_scope.
 Local Open Scope nat_scope.
@@ -546,7 +546,47 @@ Proof.
   vm_compute. reflexivity.
 Qed.
 
-(* 21. the eigenvalue slice of the smallest-eigenvalue site (defect F7, known finding): for whichever form the
+(* 22. what the check RUNS is what the theorems are about: the boolean decision procedures decide the spec, and
+       the output of the extracted model is accepted by the extracted spec procedure (closed instance Qc, every
+       oracle function) *)
+Theorem Lap_decision_procedure_ok :
+  forall (heat : nat -> nat -> Qc) (k : nat) (nbrs : list (list nat)) (n : nat) (L : list (list Qc)) (D : list Qc),
+    lap_matrix_b heat k nbrs qeqb n L D = true <->
+    (wf_mat n n L /\ length D = n /\
+     meq n n (mof L) (matL heat k nbrs n) /\ veq n (vof D) (degD heat k nbrs n)).
+Proof. exact (lap_matrix_b_ok qeqb qeqb_ok). Qed.
+Print Assumptions Lap_decision_procedure_ok.
+
+Theorem Dm_decision_procedure_ok :
+  forall (K : mat Qc) (n : nat) (M : list (list Qc)) (s : list Qc),
+    dm_matrix_b K n qeqb M s = true <->
+    (wf_mat n n M /\ length s = n /\ meq n n (mof M) (dm_sym K n (vof s))).
+Proof. exact (dm_matrix_b_ok qeqb qeqb_ok). Qed.
+Print Assumptions Dm_decision_procedure_ok.
+
+Theorem Lap_run_accepted_Qc :
+  forall (dist : list (list Qc)) (width : Qc) (expo : Qc -> Qc) (n : nat)
+         (nbrs : list (list nat)) (L : list (list Qc)) (D : list Qc),
+    lap_run dist width expo n nbrs = LOk (L, D) ->
+    lap_spec_run dist width expo n nbrs L D = true.
+Proof. exact lap_run_accepted. Qed.
+Print Assumptions Lap_run_accepted_Qc.
+
+Theorem Dm_run_accepted_Qc :
+  forall (dist : list (list Qc)) (width : Qc) (expo sqrto : Qc -> Qc) (n : nat),
+    let K := dm_kernel (mof dist) width expo in
+    let s := map sqrto (dm_sqrt_args_run dist width expo n) in
+    (forall i, i < n -> dm_P K n i <> 0%F) ->
+    (forall i, i < n -> vof s i <> 0%F) ->
+    dm_spec_run dist width expo n (dm_run dist width expo sqrto n) s = true.
+Proof. exact dm_run_accepted. Qed.
+Print Assumptions Dm_run_accepted_Qc.
+
+Example Lap_run_accepted_nonvacuous :
+  exists L D, lap_run ex_dist (qz 1) ex_expo 3 ex_nbrs = LOk (L, D).
+Proof. eexists. eexists. vm_compute. reflexivity. Qed.
+
+(* 23. the eigenvalue slice of the smallest-eigenvalue site (defect F7, known finding): for whichever form the
        generated table of the tree has, either the refutation with witness or the in-range theorem *)
 Theorem Lap_eig_segment_table :
   (f7_present = true /\
